@@ -15,6 +15,7 @@
 //   ?<cond> <op...>        conditional prefix: ?v<o> = only if slot o is valid
 #include "exec.h"
 
+#include <algorithm>
 #include <fstream>
 #include <iostream>
 #include <sstream>
@@ -99,6 +100,67 @@ int main(int argc, char** argv) {
       int o; std::string name, v; ss >> o >> name >> v;
       if (!ex.valid(o)) continue;
       ex.set(o, name, value(ex, v));
+    } else if (op == "PW") {
+      // parse under a window of limits around the sizes involved (C09, C08): the sizes
+      // come from an unlimited, unlogged dry run; results go to scratch slot 7
+      int o, b; std::string v; ss >> o >> b >> v;
+      if (b && !ex.valid(b)) continue;
+      std::string in1 = value(ex, v);
+      std::vector<long> Ls = {0, 1, (long)in1.size() - 1, (long)in1.size(), (long)in1.size() + 1};
+      {
+        auto dry = ada::parse<ada::url_aggregator>(in1, b ? &*ex.s[b].a : nullptr);
+        if (dry) {
+          long h = (long)dry->get_href_size();
+          for (long d : {-2L, -1L, 0L, 1L}) Ls.push_back(h + d);
+          Ls.push_back((h + (long)in1.size()) / 2);
+        }
+        if (b) { Ls.push_back((long)ex.href(b).size()); Ls.push_back((long)ex.href(b).size() - 1); }
+      }
+      std::sort(Ls.begin(), Ls.end());
+      Ls.erase(std::unique(Ls.begin(), Ls.end()), Ls.end());
+      std::string bh = b ? ex.href(b) : std::string();
+      for (long L : Ls) {
+        if (L < 0) continue;
+        ex.set_limit(L);
+        ex.parse(7, in1, b);
+        if (b) ex.canparse(in1, &bh); else ex.canparse(in1, nullptr);
+      }
+      ex.set_limit(-1);
+      ex.parse(o, in1, b);
+    } else if (op == "SW") {
+      // a setter under a window of limits: each on a fresh copy (slot 7) of slot o, then
+      // the unlimited call on slot o itself so that the history goes on
+      int o; std::string name, v; ss >> o >> name >> v;
+      if (!ex.valid(o)) continue;
+      std::string val = value(ex, v);
+      long before = (long)ex.s[o].a->get_href_size();
+      std::vector<long> Ls = {0, (long)val.size() - 1, (long)val.size(), before - 1, before, before + 1};
+      {
+        ada::url_aggregator dry = *ex.s[o].a;
+        if (name == "href") (void)dry.set_href(val);
+        else if (name == "protocol") (void)dry.set_protocol(val);
+        else if (name == "username") (void)dry.set_username(val);
+        else if (name == "password") (void)dry.set_password(val);
+        else if (name == "host") (void)dry.set_host(val);
+        else if (name == "hostname") (void)dry.set_hostname(val);
+        else if (name == "port") (void)dry.set_port(val);
+        else if (name == "pathname") (void)dry.set_pathname(val);
+        else if (name == "search") dry.set_search(val);
+        else if (name == "hash") dry.set_hash(val);
+        long h = (long)dry.get_href_size();
+        for (long d : {-2L, -1L, 0L, 1L}) Ls.push_back(h + d);
+      }
+      std::sort(Ls.begin(), Ls.end());
+      Ls.erase(std::unique(Ls.begin(), Ls.end()), Ls.end());
+      for (long L : Ls) {
+        // only limits under which the object itself could have been obtained
+        if (L < before) continue;
+        ex.set_limit(L);
+        ex.copy(7, o);
+        ex.set(7, name, val);
+      }
+      ex.set_limit(-1);
+      ex.set(o, name, val);
     } else if (op == "Y") { int o, src; ss >> o >> src; ex.copy(o, src); }
     else if (op == "O") { int o; ss >> o; ex.observe_slot(o); }
     else if (op == "E") { int o; ss >> o; ex.reparse(o); }
